@@ -24,8 +24,8 @@ type Case struct {
 func gen(t *rapid.T) Case {
 	cfg := pat.GenCfg(t, true)
 	c := Case{Icpt: cfg.IcptName, Trace: rapid.Bool().Draw(t, "trace")}
-	c.Pool = pat.GenPool(t, cfg, rapid.IntRange(2, 10).Draw(t, "npool"))
-	c.Ops = life.GenOps(t, cfg, c.Pool, rapid.IntRange(0, 25).Draw(t, "nops"),
+	c.Pool = pat.GenPool(t, cfg, rapid.IntRange(2, rig.Up(10)).Draw(t, "npool"))
+	c.Ops = life.GenOps(t, cfg, c.Pool, rapid.IntRange(0, rig.Up(25)).Draw(t, "nops"),
 		life.GenOpts{Facades: false, Hostile: true, NewMethods: true, Trace: c.Trace})
 	c.Variant = rapid.IntRange(0, 11).Draw(t, "variant")
 	return c
